@@ -40,7 +40,7 @@ type c20Handle struct {
 }
 
 type c20Mut struct {
-	Kind string `json:"kind"` // cut | short | pad | grow | framelen | field | subst | typebyte | wrongid | body
+	Kind string `json:"kind"` // cut | short | pad | grow | framelen | field | subst | typebyte | wrongid | body | word
 	Arg  int    `json:"arg"`  // cut offset / field index / substituted type
 	Val  uint32 `json:"val"`  // replacement value
 	Body string `json:"body,omitempty"`
@@ -63,6 +63,8 @@ func (m *c20Mut) String() string {
 		return fmt.Sprintf("frame length <- %d then EOF", m.Val)
 	case "field":
 		return fmt.Sprintf("field %d <- %d", m.Arg, m.Val)
+	case "word":
+		return fmt.Sprintf("word %d (attribute flags / permission word) <- %#x", m.Arg, m.Val)
 	case "subst":
 		return fmt.Sprintf("reply replaced by a valid reply of type %d", m.Arg)
 	case "typebyte":
@@ -148,8 +150,8 @@ func (p *c20Peer) putAttrs(b *c07B, k byte, pth string) {
 	default:
 		size = uint64(len(p.files[pth]))
 	}
-	b.u32(c07AttrSize | c07AttrUIDs | c07AttrPerm | c07AttrTimes | c07AttrExt)
-	b.u64(size).u32(1000).u32(1000).u32(perm).u32(1000000000).u32(1000000000)
+	b.word("attrflags", c07AttrSize|c07AttrUIDs|c07AttrPerm|c07AttrTimes|c07AttrExt)
+	b.u64(size).u32(1000).u32(1000).word("perm", perm).u32(1000000000).u32(1000000000)
 	b.length("extcount", 1).str("exttype", "x@y").str("extdata", "z")
 }
 
@@ -517,6 +519,11 @@ func (m *c20Mut) lie(rep c07Pkt) (out []byte, eof bool) {
 			binary.BigEndian.PutUint32(b[rep.flds[m.Arg].off:], m.Val)
 		}
 		return b, false
+	case "word":
+		if m.Arg < len(rep.words) {
+			binary.BigEndian.PutUint32(b[rep.words[m.Arg].off:], m.Val)
+		}
+		return b, false
 	case "subst":
 		id := uint32(0)
 		if len(b) >= 9 {
@@ -623,7 +630,8 @@ func c20Ops() []c20Op {
 		if err != nil {
 			return e(err)
 		}
-		return fmt.Sprintf("size=%d mode=%v", i.Size(), i.Mode())
+		// what a caller does with the value: every accessor
+		return fmt.Sprintf("size=%d mode=%v dir=%v name=%s mtime=%d sys=%T", i.Size(), i.Mode(), i.IsDir(), i.Name(), i.ModTime().Unix(), i.Sys())
 	}
 	open := func(flags int) func(c *Client) any {
 		return func(c *Client) any {
@@ -677,7 +685,14 @@ func c20Ops() []c20Op {
 	cl("Open", func(c *Client) string { return fe(c.Open("/f")) })
 	cl("Create", func(c *Client) string { return fe(c.Create("/new")) })
 	cl("OpenFile", func(c *Client) string { return fe(c.OpenFile("/f", os.O_RDWR|os.O_APPEND)) })
-	cl("ReadDir", func(c *Client) string { l, err := c.ReadDir("/d"); return ne(len(l), err) })
+	cl("ReadDir", func(c *Client) string {
+		l, err := c.ReadDir("/d")
+		var sb strings.Builder
+		for _, i := range l {
+			sb.WriteString(" " + fi(i, nil))
+		}
+		return ne(len(l), err) + sb.String()
+	})
 	cl("StatVFS", func(c *Client) string {
 		s, err := c.StatVFS("/")
 		if s == nil && err == nil {
@@ -698,6 +713,9 @@ func c20Ops() []c20Op {
 			if w.Err() != nil {
 				errs++
 				continue
+			}
+			if st := w.Stat(); st != nil {
+				_ = fi(st, nil)
 			}
 			n++
 		}
@@ -959,6 +977,27 @@ func c20Mutations(rep c07Pkt, quick, allBodies bool) []*c20Mut {
 		for _, v := range c20Repl(f.val) {
 			if v != f.val {
 				ms = append(ms, &c20Mut{Kind: "field", Arg: i, Val: v})
+			}
+		}
+	}
+	for i, w := range rep.words {
+		var vals []uint32
+		switch w.name {
+		case "perm":
+			// every value of the 4-bit file-type field (7 are defined by POSIX), and the extremes
+			for t := uint32(0); t < 16; t++ {
+				vals = append(vals, t<<12|0o644)
+			}
+			vals = append(vals, 0, 1<<32-1, 0o7777, 1<<16|0o100644)
+		default: // attribute flags: each defined bit cleared, undefined bits set, none, all
+			for _, bit := range []uint32{c07AttrSize, c07AttrUIDs, c07AttrPerm, c07AttrTimes, c07AttrExt} {
+				vals = append(vals, w.val&^bit)
+			}
+			vals = append(vals, w.val|0x10, w.val|0x40000000, 0, 1<<32-1)
+		}
+		for _, v := range vals {
+			if v != w.val {
+				ms = append(ms, &c20Mut{Kind: "word", Arg: i, Val: v})
 			}
 		}
 	}
